@@ -1316,10 +1316,20 @@ fn handle_rl_dwarf(a: &[&str]) -> Option<String> {
         let dump2 = dump(&d2, &f2, &e2, &mut c2);
         cnt.items += c1.items + c2.items;
         cnt.errors += c1.errors + c2.errors;
-        if dump1 != dump2 {
+        // With section base addresses other than 0 every cross-section offset points somewhere else,
+        // the parsers run over misaligned data and may read across relocated fields: then the
+        // hypothesis of read transparency (every relocated field is read exactly, by a relocatable
+        // primitive) does not hold and the two dumps may legitimately differ.
+        let shifted = env.secs.iter().any(|b| *b != 0);
+        let compatible = !shifted
+            || (0..SECS.len()).all(|i| {
+                let rels: Vec<RRel> = link_values(&rec.relocs[i], env).into_iter().map(|(off, size, addend)| RRel { off, size, addend }).collect();
+                compat_log(&rels, &logs[i].borrow())
+            });
+        if dump1 != dump2 && compatible {
             let (l1, l2): (Vec<&str>, Vec<&str>) = (dump1.lines().collect(), dump2.lines().collect());
             let i = (0..l1.len().max(l2.len())).find(|&i| l1.get(i) != l2.get(i)).unwrap_or(0);
-            let cut = |s: Option<&&str>| s.map(|s| s.chars().take(200).collect::<String>()).unwrap_or_default();
+            let cut = |s: Option<&&str>| s.map(|s| s.chars().take(3000).collect::<String>()).unwrap_or_default();
             // attribute the differing lines: `.eh_frame` lines while its pointers are not `absptr`
             // (C18-1), `.debug_frame` FDE lines (C18-2), anything else
             let n = l1.len().max(l2.len());
